@@ -198,6 +198,19 @@ Proof.
   exists c. split; [exact H2|]. exact (reader_fields ex_msg c H1 H2).
 Qed.
 
+(* Known finding (C02 forward-reference-later-module, recorded): the reader resolves the references of a module while that module
+   is decoded, so a message is accepted only if every reference names a node defined EARLIER (wf's staging clauses).  The property
+   asks for every referentially closed message.  The example IR of ProtoRoundTrip (two modules, the second holding a symbol whose
+   referent is a block of the first) round-trips; the same message with its two modules listed in the other order -- every reference
+   still names a node of the message -- is refused with DeserializationError. *)
+Definition modules_reversed (c : cIR) : cIR :=
+  {| cr_uuid := cr_uuid c; cr_version := cr_version c; cr_modules := rev (cr_modules c); cr_edges := cr_edges c; cr_aux := cr_aux c |}.
+
+Theorem C02_forward_reference_refuted :
+  exists c, wf c = true /\ from_proto (to_proto c) = Ok c /\
+            wf (modules_reversed c) = false /\ from_proto (to_proto (modules_reversed c)) = Err EDeser.
+Proof. exists ProtoRoundTrip.ex_ir. vm_compute. repeat split; reflexivity. Qed.
+
 Print Assumptions C02_header_layout.
 Print Assumptions C02_header_is_GTIRB.
 Print Assumptions C02_writer_uuid_16_bytes.
@@ -221,3 +234,4 @@ Print Assumptions C02_version_agrees.
 Print Assumptions C02_fields_covered.
 Print Assumptions C02_oneofs_covered.
 Print Assumptions C02_messages_partition.
+Print Assumptions C02_forward_reference_refuted.
